@@ -313,6 +313,11 @@ func indepCases(g *Gen, tc TreeCfg) {
 			return randMap(r, tc, 1)
 		case 1:
 			return []interface{}{randScalar(r), randMap(r, tc, 2)}
+		case 2:
+			if r.Bool() {
+				return []string{"${1}", "${0}", "${0.a}", "x${2}"}[r.Intn(4)]
+			}
+			return randScalar(r)
 		default:
 			return randScalar(r)
 		}
@@ -325,11 +330,27 @@ func indepCases(g *Gen, tc TreeCfg) {
 		return l
 	}
 	data := func(c *ucfg.Config, opts []ucfg.Option) string {
+		// what the config holds, the names it lists, and where its entries say they are
+		out := map[string]interface{}{}
 		u, err := unpackAny(c, opts...)
 		if err != nil {
-			return "(OStr " + coqStr("error: "+err.Error()) + ")"
+			out["data"] = "error: " + err.Error()
+		} else {
+			out["data"] = u
 		}
-		return coqOTree(u)
+		var keys []interface{}
+		for _, k := range c.FlattenedKeys(opts...) {
+			keys = append(keys, k)
+		}
+		out["keys"] = keys
+		var paths []interface{}
+		for i := 0; i < 4; i++ {
+			if ch, err := c.Child("", i, opts...); err == nil && ch != nil {
+				paths = append(paths, fmt.Sprintf("%d:%s", i, ch.Path(".")))
+			}
+		}
+		out["paths"] = paths
+		return coqOTree(out)
 	}
 	names := []string{"0", "1", "0.a", "0.b", "1.a", "0.0", "0.1", "0.1.a", "2", "0.l.0"}
 	edit := func(c *ucfg.Config, opts []ucfg.Option) string {
@@ -347,7 +368,7 @@ func indepCases(g *Gen, tc TreeCfg) {
 		}
 	}
 	for i := 0; i < g.N/3+4; i++ {
-		opts := []ucfg.Option{ucfg.PathSep(".")}
+		opts := []ucfg.Option{ucfg.PathSep("."), ucfg.VarExp}
 		dl, sl := list(), list()
 		pol := r.Intn(len(policyOpts))
 		mo := append([]ucfg.Option{}, opts...)
